@@ -210,7 +210,7 @@ func C01(r *Run) {
 	r.Cov["distinct_nontrivial"] = len(distinct)
 	r.Cov["rule"] = "layer chains of 2-4 layers; children generated relative to the real merged state with the whole catalogue of override forms; distinct = distinct layer sequences"
 	r.Cov["checker_cmd"] = first(res.Cmds)
-	r.Assume = append(r.Assume, "TLC evaluates the TLA+ specification correctly", "tv projection between Go values and tagged trees is faithful (self-checked)")
+
 }
 
 func contains(s, sub string) bool {
